@@ -24,6 +24,8 @@ CHECKS = {
     "C14": ("c14", False),
     "C03": ("cpp", True),
     "C13": ("cpp", True),
+    "C18": ("c18", False),
+    "C15": ("c15", False),
 }
 
 
